@@ -87,6 +87,35 @@ def translate(repo):
                             r = local[r.id]
                         if isinstance(r, ast.Tuple) and not r.elts:
                             kind = False
+                        elif isinstance(r, ast.Name) and isinstance(func, ast.FunctionDef) and r.id in [a.arg for a in func.args.args]:
+                            # the reserved set is a parameter of a helper: every call of the helper in this module must
+                            # pass a union of `<scope>.referenced` for it
+                            pos = [a.arg for a in func.args.args].index(r.id)
+                            ncalls = 0
+                            for caller in ast.walk(t):
+                                if not isinstance(caller, ast.FunctionDef) or caller is func:
+                                    continue
+                                cl = {}
+                                for st in ast.walk(caller):
+                                    if isinstance(st, ast.Assign) and len(st.targets) == 1 and isinstance(st.targets[0], ast.Name):
+                                        cl[st.targets[0].id] = st.value
+                                for cc in ast.walk(caller):
+                                    if isinstance(cc, ast.Call) and isinstance(cc.func, ast.Attribute) and cc.func.attr == func.name:
+                                        args = cc.args
+                                        a = args[pos - 1] if pos - 1 < len(args) else None      # (self is not passed explicitly)
+                                        for kw in cc.keywords:
+                                            if kw.arg == r.id:
+                                                a = kw.value
+                                        if isinstance(a, ast.Name) and a.id in cl:
+                                            a = cl[a.id]
+                                        if a is None or not all(isinstance(x, ast.Attribute) and x.attr == 'referenced'
+                                                                for x in _union_terms(a)):
+                                            raise Untranslatable('untranslatable: %s:%d: %s is called with a reserved set that is not '
+                                                                 '<scope>.referenced' % (os.path.relpath(p, repo), cc.lineno, func.name))
+                                        ncalls += 1
+                            if not ncalls:
+                                raise Untranslatable('untranslatable: %s:%d: no call of %s found' % (os.path.relpath(p, repo), c.lineno, func.name))
+                            kind = True
                         else:
                             ts = _union_terms(r)
                             if not all(isinstance(x, ast.Attribute) and x.attr == 'referenced' for x in ts):
